@@ -14,7 +14,7 @@ TRUST = ('trusted base: the reference rule in simaudit.refmodels written from th
 TECHNIQUE = 'deterministic simulation as the end-to-end observation point; reference-model oracle; cell coverage measured'
 LEVEL = 'exploration'
 BUDGET = {'quick': 200, 'thorough': 2000}
-NCASES = {'quick': 480, 'thorough': 9600}
+NCASES = {'quick': 960, 'thorough': 9600}
 RULE = ('cases: cell index = case index mod 48 so every cell is instantiated equally often; names drawn per case. non-trivial: every case whose report was reached; distinct by '
         '(role, marker, chacha, cbc, etm) cell x hash of the instantiated names. evidence lists cells hit.')
 ASSUMPTIONS = ['c2s and s2c lists equal', 'client role is audited through the listen/accept path with a simulated client']
